@@ -1,6 +1,6 @@
 ---------------------------- MODULE MC_Faults ----------------------------
 EXTENDS Faults
 BAll == {"compInPlace", "compRecreate", "compRolling", "compFinalize", "compCustomize", "decorator"}
-CAll == {404, 409, 410, 422, 500, 0}
+CAll == {404, 409, 410, 422, 500, 504, 0}
 HAll == {500, 429, 0, 404}
 =============================================================================
